@@ -47,9 +47,10 @@ import (
 type flags struct {
 	cont, explicitExec, unique, update, customCmds, customCond bool
 	// lanes without a model counterpart (the expectation comes from the generator alone):
-	deadline bool   // "d": Params.Deadline expires about a second after the start of the run
-	mainCmd  bool   // "m": the script uses `vmain`, the command this binary registers through testscript.Main
-	setupCd  string // "@<hex>": Params.Setup sets env.Cd to this $WORK-relative (slash) directory, which the archive creates
+	deadline   bool   // "d": Params.Deadline expires about a second after the start of the run
+	mainCmd    bool   // "m": the script uses `vmain`, the command this binary registers through testscript.Main
+	setupCd    string // "@<hex>": Params.Setup sets env.Cd to this $WORK-relative (slash) directory, which the archive creates
+	oracleOnly bool   // "o": the script uses features outside the Lean model ([go1.N] conditions, programs installed on $PATH by the script, CRLF script text)
 }
 
 func (f flags) String() string {
@@ -57,7 +58,7 @@ func (f flags) String() string {
 	for _, x := range []struct {
 		b bool
 		c string
-	}{{f.cont, "c"}, {f.explicitExec, "e"}, {f.unique, "n"}, {f.update, "U"}, {f.customCmds, "k"}, {f.customCond, "q"}, {f.deadline, "d"}, {f.mainCmd, "m"}} {
+	}{{f.cont, "c"}, {f.explicitExec, "e"}, {f.unique, "n"}, {f.update, "U"}, {f.customCmds, "k"}, {f.customCond, "q"}, {f.deadline, "d"}, {f.mainCmd, "m"}, {f.oracleOnly, "o"}} {
 		if x.b {
 			s += x.c
 		}
@@ -75,7 +76,7 @@ func parseFlags(s string) flags {
 	s, cd, _ := strings.Cut(s, "@")
 	f := flags{cont: strings.Contains(s, "c"), explicitExec: strings.Contains(s, "e"), unique: strings.Contains(s, "n"),
 		update: strings.Contains(s, "U"), customCmds: strings.Contains(s, "k"), customCond: strings.Contains(s, "q"),
-		deadline: strings.Contains(s, "d"), mainCmd: strings.Contains(s, "m")}
+		deadline: strings.Contains(s, "d"), mainCmd: strings.Contains(s, "m"), oracleOnly: strings.Contains(s, "o")}
 	if cd != "" {
 		f.setupCd = string(corr.Unhx(cd))
 	}
@@ -85,7 +86,7 @@ func parseFlags(s string) flags {
 // modelled: the Lean model knows neither Params.Deadline, nor commands registered through
 // testscript.Main, nor a Setup hook that moves env.Cd; such cases are judged by the generator's
 // expectation only (oracle-only lanes).
-func (f flags) modelled() bool { return !f.deadline && !f.mainCmd && f.setupCd == "" }
+func (f flags) modelled() bool { return !f.deadline && !f.mainCmd && f.setupCd == "" && !f.oracleOnly }
 
 // cliable: cmd/testscript can only set ContinueOnError and UpdateScripts.
 func (f flags) cliable() bool {
@@ -648,6 +649,7 @@ func runTsRun(tier string, seed int64, model string, replay string) *corr.Result
 			cases = append(cases, genC16opt(rng, gen16Opts{setupCd: true, dupGolden: i%8 == 7}))
 		}
 		cases = append(cases, laneCorpus()...)
+		cases = append(cases, oracleOnlyCorpus()...)
 		for i := 0; i < nMain; i++ {
 			cases = append(cases, genC01opt(rng, genOpts{mainCmd: true}))
 		}
